@@ -379,9 +379,20 @@ end numeric
 section custom
 variable [Lit α] [IntCodec α] [LT α] [DecidableLT α] [BEq α]
 
+/-- `.map(get_initial).collect::<Result<Vec<_>, _>>()`: all values, or the first error -/
+def collectInitial : List (String × StateFeature α) → Except StateErr (List α)
+  | [] => .ok []
+  | p :: r =>
+    match p.2.getInitial with
+    | .error e => .error e
+    | .ok x =>
+      match collectInitial r with
+      | .error e => .error e
+      | .ok xs => .ok (x :: xs)
+
 /-- `initial_state`: the features' initial values in slot (iteration) order -/
 def initialState (m : StateModel α) : Except StateErr (List α) :=
-  m.map.iter.mapM (fun p => p.2.getInitial)
+  collectInitial m.map.iter
 
 /-- `get_custom_state_variable` -/
 def getCustomStateVariable (m : StateModel α) (state : List α) (name : String) :
